@@ -28,7 +28,7 @@ type C02Cell struct {
 }
 
 var c02Contexts = []string{"body", "action", "inv", "custom", "customretry", "cleanup", "ccleanup", "go"}
-var c02Positions = []string{"first", "later", "last", "afterskips", "step", "replayonce", "late"}
+var c02Positions = []string{"first", "later", "last", "afterskips", "step", "replayonce", "replayshort", "late"}
 
 type c02 struct{}
 
@@ -65,7 +65,8 @@ func buildCell(cell *C02Cell, lastVal int64) (*Prog, CheckCfg) {
 	case "late":
 		cond = &Cond{Draw: 0, Op: "mod", M: 3, C: 1}
 		cfg.Checks = 40
-	case "replayonce":
+	case "replayonce", "replayshort":
+		// (replayshort: ... and after the signal it draws more than the file holds: the replay runs out of data)
 		// the test case comes from a fail file and falsifies the property on its first execution only (the
 		// reproduction run passes): still a falsification
 		cond = &Cond{Op: "true"}
@@ -80,7 +81,7 @@ func buildCell(cell *C02Cell, lastVal int64) (*Prog, CheckCfg) {
 		p.Body = append(p.Body, &Stmt{Op: "if", Cond: &Cond{Draw: 0, Op: "mod", M: 2, C: 0}, Body: []*Stmt{{Op: "skip", Kind: "SkipNow"}}})
 	}
 	guarded := func(body []*Stmt) *Stmt {
-		if cell.Position == "replayonce" && !cell.prepare {
+		if (cell.Position == "replayonce" || cell.Position == "replayshort") && !cell.prepare {
 			return &Stmt{Op: "ifinv", N: 0, Body: body}
 		}
 		return &Stmt{Op: "if", Cond: cond, Body: body}
@@ -130,6 +131,9 @@ func buildCell(cell *C02Cell, lastVal int64) (*Prog, CheckCfg) {
 			p.Body = append(p.Body, guarded([]*Stmt{{Op: "skip", Kind: "Skip"}}))
 		}
 	}
+	if cell.Position == "replayshort" && !cell.prepare {
+		p.Body = append(p.Body, &Stmt{Op: "draw", Label: "extra", Gen: wideInt()}, &Stmt{Op: "draw", Label: "extra2", Gen: wideInt()})
+	}
 	if cell.Position == "step" && cell.Context != "action" && cell.Context != "inv" {
 		// "during a state-machine step": the context is entered from inside an action
 		inner := p.Body[len(p.Body)-1]
@@ -153,6 +157,9 @@ func cellValidPos(kind, context, position string, thenSkip bool) bool {
 	}
 	if position == "replayonce" {
 		return (context == "body" || context == "cleanup" || context == "action") && !thenSkip
+	}
+	if position == "replayshort" {
+		return (context == "body" || context == "cleanup" || context == "go") && sigClass(kind) == "nonfatal" && !thenSkip
 	}
 	return cellValid(kind, context, thenSkip)
 }
@@ -203,7 +210,7 @@ func (p c02) Loop(c *Ctx) {
 			}
 			cl := *cell
 			cl.Seed = shardSeed(c.Seed+uint64(s)*7919, ci) | 1
-			cs := &C02Case{Cell: &cl, MakeCheck: s%4 == 3 && cl.Position != "replayonce"}
+			cs := &C02Case{Cell: &cl, MakeCheck: s%4 == 3 && cl.Position != "replayonce" && cl.Position != "replayshort"}
 			out := p.Run(c, cs)
 			c.Stats.Add(cs, out)
 			if out.Viol != nil {
@@ -244,7 +251,7 @@ func (c02) Run(c *Ctx, csAny any) Outcome {
 				lastVal = dr.X.Log[11].Draws[0].M
 			}
 		}
-		if cs.Cell.Position == "replayonce" {
+		if cs.Cell.Position == "replayonce" || cs.Cell.Position == "replayshort" {
 			// first a run of the always-failing variant, which leaves a fail file for this test name
 			prep := *cs.Cell
 			prep.prepare = true
@@ -258,7 +265,7 @@ func (c02) Run(c *Ctx, csAny any) Outcome {
 			}
 		}
 		prog, cfg = buildCell(cs.Cell, lastVal)
-		if cs.Cell.Position == "replayonce" {
+		if cs.Cell.Position == "replayonce" || cs.Cell.Position == "replayshort" {
 			cfg.Seed = cs.Cell.Seed + 17
 		}
 		cellName = fmt.Sprintf("%s/%s/%s/skip=%v", cs.Cell.Kind, cs.Cell.Context, cs.Cell.Position, cs.Cell.ThenSkip)
